@@ -361,6 +361,9 @@ func (c16) Eval(env *Env, c *Case) []Violation {
 	}
 	if len(c.Spec.Faults) > 0 {
 		// replay of one explicit plan
+		if c.Spec.Faults[0].Kind == "extern" {
+			return append(vs, c16Extern(env, c, base, pilot, seenSig)...)
+		}
 		judge(c.Spec.Faults, c.Extra["class"])
 		return vs
 	}
@@ -466,61 +469,7 @@ func (c16) Eval(env *Env, c *Case) []Violation {
 		env.Probe("fault-pair")
 		judge([]world.Fault{f1, f2}, "pair:"+cl1+"+"+cl2)
 	}
-	// another process appends to a target after the walk has seen it and before it
-	// is read: the file must end up as what that process left (if gopatch fails) or
-	// as the complete patched form OF THAT CONTENT - never with the appended part lost
-	if !c.Flags.Diff && !c.Flags.Print && c.Extra["hardlink_target"] != "1" && c.Extra["hardlink_decoy"] != "1" {
-		appended := []byte("\n// appended by another process while gopatch was running\nfunc appendedLater() {}\n")
-		for _, f := range c.SortedFiles() {
-			if f.Role != "match" || env.Expired() {
-				continue
-			}
-			k := -1
-			for i, o := range pilot.Log {
-				if o.Name == "open" && o.Path == f.Path && o.Flags&(world.O_WRONLY|world.O_RDWR) == 0 {
-					k = i
-					break
-				}
-			}
-			now := append(append([]byte(nil), c.NodeData(f.Path)...), appended...)
-			if k < 0 || ParsesAsGo(now) != nil {
-				continue
-			}
-			refCase := c.Clone()
-			for i := range refCase.Spec.Nodes {
-				if refCase.Spec.Nodes[i].Path == f.Path && refCase.Spec.Nodes[i].Kind == "file" {
-					refCase.Spec.Nodes[i].Data = now
-				}
-			}
-			refCase.Spec.Faults = nil
-			ref := RunCLI(env.Prog, refCase.Spec)
-			spec := base.Clone()
-			spec.Faults = []world.Fault{{AtOp: k, Kind: "extern", Path: f.Path, Data: appended}}
-			r2 := env.Run(spec)
-			if ref.Outcome != OutExit || r2.Outcome != OutExit || len(r2.Fired) == 0 {
-				continue
-			}
-			env.Probe("target-grows-between-walk-and-read")
-			want, got := FindState(ref.Final, f.Path), FindState(r2.Final, f.Path)
-			if want == nil || got == nil {
-				continue
-			}
-			isNow, isNew := bytes.Equal(got.Data, now), bytes.Equal(got.Data, want.Data)
-			sig := ""
-			switch {
-			case !isNow && !isNew:
-				sig = "lost-update"
-			case !isNew && r2.Exit == 0 && ref.Exit == 0:
-				sig = "exit-zero-but-unpatched"
-			}
-			if sig != "" && !seenSig["C16/changed-behind-the-back/"+sig] {
-				seenSig["C16/changed-behind-the-back/"+sig] = true
-				cc := c.Clone()
-				cc.Spec.Faults = spec.Faults
-				vs = append(vs, Violation{Oracle: "changed-behind-the-back", Signature: "C16/changed-behind-the-back/" + sig, Case: cc, Detail: fmt.Sprintf("%s grew by %d bytes after the walk and before gopatch read it; it ends as %d bytes that are neither that content (%d bytes) nor its complete patched form (%d bytes), exit %d: %q", f.Path, len(appended), len(got.Data), len(now), len(want.Data), r2.Exit, clip(string(got.Data), 200))})
-			}
-		}
-	}
+	vs = append(vs, c16Extern(env, c, base, pilot, seenSig)...)
 	if !env.Quiet {
 		env.Stats.Sample(map[string]interface{}{"args": c.Spec.Args, "pilot_ops": len(pilot.Log), "files": c.Files, "example_fault": world.Fault{AtOp: len(pilot.Log) / 2, Kind: "kill", Bytes: -1}}, 3)
 	}
@@ -980,6 +929,70 @@ func c16EvalInputs(env *Env, c *Case) []Violation {
 	}
 	if !env.Quiet {
 		env.Stats.Sample(map[string]interface{}{"args": c.Spec.Args, "input_failure": kind, "exit": r.Exit, "stderr": clip(stderr, 200)}, 2)
+	}
+	return vs
+}
+
+// c16Extern: another process appends to a target after the walk has seen it and
+// before it is read. The file must end up as what that process left (if gopatch
+// fails) or as the complete patched form OF THAT CONTENT - never with the
+// appended part lost. With an explicit plan in the case only that plan is run.
+func c16Extern(env *Env, c *Case, base world.Spec, pilot *RunResult, seenSig map[string]bool) []Violation {
+	var vs []Violation
+	if !c.Flags.Diff && !c.Flags.Print && c.Extra["hardlink_target"] != "1" && c.Extra["hardlink_decoy"] != "1" {
+		appended := []byte("\n// appended by another process while gopatch was running\nfunc appendedLater() {}\n")
+		for _, f := range c.SortedFiles() {
+			if f.Role != "match" || env.Expired() {
+				continue
+			}
+			if len(c.Spec.Faults) > 0 && c.Spec.Faults[0].Path != f.Path {
+				continue
+			}
+			k := -1
+			for i, o := range pilot.Log {
+				if o.Name == "open" && o.Path == f.Path && o.Flags&(world.O_WRONLY|world.O_RDWR) == 0 {
+					k = i
+					break
+				}
+			}
+			now := append(append([]byte(nil), c.NodeData(f.Path)...), appended...)
+			if k < 0 || ParsesAsGo(now) != nil {
+				continue
+			}
+			refCase := c.Clone()
+			for i := range refCase.Spec.Nodes {
+				if refCase.Spec.Nodes[i].Path == f.Path && refCase.Spec.Nodes[i].Kind == "file" {
+					refCase.Spec.Nodes[i].Data = now
+				}
+			}
+			refCase.Spec.Faults = nil
+			ref := RunCLI(env.Prog, refCase.Spec)
+			spec := base.Clone()
+			spec.Faults = []world.Fault{{AtOp: k, Kind: "extern", Path: f.Path, Data: appended}}
+			r2 := env.Run(spec)
+			if ref.Outcome != OutExit || r2.Outcome != OutExit || len(r2.Fired) == 0 {
+				continue
+			}
+			env.Probe("target-grows-between-walk-and-read")
+			want, got := FindState(ref.Final, f.Path), FindState(r2.Final, f.Path)
+			if want == nil || got == nil {
+				continue
+			}
+			isNow, isNew := bytes.Equal(got.Data, now), bytes.Equal(got.Data, want.Data)
+			sig := ""
+			switch {
+			case !isNow && !isNew:
+				sig = "lost-update"
+			case !isNew && r2.Exit == 0 && ref.Exit == 0:
+				sig = "exit-zero-but-unpatched"
+			}
+			if sig != "" && !seenSig["C16/changed-behind-the-back/"+sig] {
+				seenSig["C16/changed-behind-the-back/"+sig] = true
+				cc := c.Clone()
+				cc.Spec.Faults = spec.Faults
+				vs = append(vs, Violation{Oracle: "changed-behind-the-back", Signature: "C16/changed-behind-the-back/" + sig, Case: cc, Detail: fmt.Sprintf("%s grew by %d bytes after the walk and before gopatch read it; it ends as %d bytes that are neither that content (%d bytes) nor its complete patched form (%d bytes), exit %d: %q", f.Path, len(appended), len(got.Data), len(now), len(want.Data), r2.Exit, clip(string(got.Data), 200))})
+			}
+		}
 	}
 	return vs
 }
